@@ -12,7 +12,7 @@
 (*  "emit_ssa" [N, ch, path]          denotes exactly the nodes of ch      *)
 (*  "from_lin" [N, path, ch]          tree built from a path has exactly   *)
 (*  "from_ssa" [N, path, ch]          the nodes the path denotes           *)
-(*  "from_ssa_multi" like from_ssa, multi-way steps: path nodes \subseteq tree  *)
+(*  "from_ssa_multi" / "from_lin_multi": multi-way steps: path nodes \subseteq tree  *)
 (*  "subtree"  [N, ch, node, size, leaves, branches]  get_subtree result is a frontier   *)
 (*  "edge"     [inputs, epath, got]   got = EdgeToSsa(inputs, epath)       *)
 (* Nodes are sets of 0-based leaf ids.  Verdict <<"V", c, clause>>.        *)
@@ -65,6 +65,10 @@ Clause(k) ==
             IF ~WellFormedSsa(k.N, k.path) THEN "input-path-malformed"
             ELSE IF ~CompleteCh(k) THEN "tree-not-complete"
             ELSE IF TreeOfSsa(k.N, k.path) # Nodes(k) THEN "tree-differs-from-path" ELSE "ok"
+      [] k.kind = "from_lin_multi" ->      \* linear path with multi-way steps: the tree refines the path
+            IF ~WellFormedLin(k.N, k.path) THEN "input-path-malformed"
+            ELSE IF ~CompleteCh(k) THEN "tree-not-complete"
+            ELSE IF ~(TreeOfLin(k.N, k.path) \subseteq Nodes(k)) THEN "tree-differs-from-path" ELSE "ok"
       [] k.kind = "from_ssa_multi" ->      \* steps may merge >= 3 tensors: the tree refines the path
             IF ~WellFormedSsa(k.N, k.path) THEN "input-path-malformed"
             ELSE IF ~CompleteCh(k) THEN "tree-not-complete"
